@@ -36,6 +36,7 @@ AFFINE = [
     ('scale', [[2, 0, 0], [0, 3, 0], [0, 0, 1]]),
     ('perm', [[0, 1, 0], [0, 0, 1], [1, 0, 0]]),
     ('skew', [[2, 1, 0], [-1, 1, 1], [0, 1, 3]]),
+    ('thin', [[64, 0, 0], [0, 1, 0], [0, 0, 1]]),              # high-aspect cells
 ]
 
 
@@ -193,6 +194,29 @@ def make_ids(rng, n, mode):
     raise ValueError(mode)
 
 
+DENSE_MODES = ['dense_ends', 'dense_swap', 'dense_moved', 'dense_reversed', 'dense_sorted']
+
+
+def almost_sorted(rng, ids_sorted, mode):
+    """storage order of a dense id range: ends in place + interior shuffled, two neighbours swapped,
+    one id moved, reversed, sorted"""
+    l = list(ids_sorted)
+    n = len(l)
+    if mode == 'dense_ends' and n > 3:
+        mid = l[1:-1]
+        rng.shuffle(mid)
+        l = [l[0]] + mid + [l[-1]]
+    elif mode == 'dense_swap' and n > 1:
+        k = rng.randrange(n - 1)
+        l[k], l[k + 1] = l[k + 1], l[k]
+    elif mode == 'dense_moved' and n > 2:
+        x = l.pop(rng.randrange(n))
+        l.insert(rng.randrange(n), x)
+    elif mode == 'dense_reversed':
+        l.reverse()
+    return l
+
+
 def warp_point(warp, p):
     """maps of the (doubled) lattice that keep every lattice face planar but
     make the cells non-parallelepipeds (frustum: x, y scaled linearly in z);
@@ -208,7 +232,7 @@ def warp_point(warp, p):
 
 
 def gen_mesh(rng, kind=None, dims=None, id_mode=None, affine=None, tet2=False, extra_nodes=None,
-             invert_one=False, max_elems=60, warp=None):
+             invert_one=False, max_elems=60, warp=None, extra_pos=None, invert_some=0.0):
     """-> dict(nodes=[(id,(x,y,z))...] storage order, blocks={type: [(eid,[node ids])...]}, meta)"""
     kinds = {
         'hex': ['hex'], 'tet': ['tet'], 'pyr': ['pyr'], 'prism': ['prismx', 'prismy', 'prismz'],
@@ -251,7 +275,7 @@ def gen_mesh(rng, kind=None, dims=None, id_mode=None, affine=None, tet2=False, e
         mids = {}
         new = []
         for typ, c in conns:
-            if typ != 'tet':
+            if typ != 'tet' or (tet2 == 'some' and rng.random() < 0.5):
                 new.append((typ, c))
                 continue
             mid = []
@@ -280,22 +304,63 @@ def gen_mesh(rng, kind=None, dims=None, id_mode=None, affine=None, tet2=False, e
         base = 'tet' if typ == 'tet2' else typ
         f = FLIP[base]
         conns[k] = (typ, [c[i] for i in f] + c[len(f):])
+    n_inverted = 0
+    if invert_some:
+        for k, (typ, c) in enumerate(conns):
+            if typ in FLIP and rng.random() < invert_some:
+                conns[k] = (typ, [c[i] for i in FLIP[typ]])
+                n_inverted += 1
     if id_mode is None:
-        id_mode = rng.choice(['seq', 'sparse', 'sparse', 'large', 'huge'])
-    nid = make_ids(rng, n, id_mode)
-    order = list(range(n))
-    if id_mode != 'seq' or rng.random() < 0.5:
-        rng.shuffle(order)
+        id_mode = rng.choice(['seq', 'sparse', 'sparse', 'large', 'huge'] + DENSE_MODES)
+    n_ref = n - extra_nodes
+    if id_mode in DENSE_MODES:
+        # dense range a..a+n-1; node -> id assignment random; storage = almost sorted by id;
+        # unreferenced nodes get the lowest / middle / highest ids = stored first / in the middle / last
+        a0 = rng.choice([1, 1, 1000, 2 ** 31 - 5000, 2 ** 40])
+        if extra_pos is None:
+            extra_pos = rng.choice(['first', 'middle', 'last'])
+        ref = list(range(n_ref))
+        rng.shuffle(ref)
+        ext = list(range(n_ref, n))
+        cut = {'first': 0, 'last': n_ref, 'middle': n_ref // 2}.get(extra_pos, n_ref)
+        seq = ref[:cut] + ext + ref[cut:]                     # seq[k] gets id a0 + k
+        nid = [None] * n
+        for k, i in enumerate(seq):
+            nid[i] = a0 + k
+        by_id = {nid[i]: i for i in range(n)}
+        order = [by_id[x] for x in almost_sorted(rng, sorted(by_id), id_mode)]
+    else:
+        nid = make_ids(rng, n, id_mode)
+        order = list(range(n))
+        if id_mode != 'seq' or rng.random() < 0.5:
+            rng.shuffle(order)
+        if extra_pos in ('first', 'middle', 'last') and extra_nodes:
+            ref = [i for i in order if i < n_ref]
+            ext = [i for i in order if i >= n_ref]
+            cut = {'first': 0, 'last': len(ref), 'middle': len(ref) // 2}[extra_pos]
+            order = ref[:cut] + ext + ref[cut:]
     nodes = [(nid[i], coords[i]) for i in order]
-    eids = make_ids(rng, len(conns), rng.choice(['seq', 'sparse']) if id_mode != 'huge' else 'sparse')
+    if id_mode in DENSE_MODES:
+        eids = list(range(1, len(conns) + 1)) if rng.random() < 0.5 else \
+            list(range(500, 500 + len(conns)))
+        rng.shuffle(eids)
+    else:
+        eids = make_ids(rng, len(conns), rng.choice(['seq', 'sparse']) if id_mode != 'huge' else 'sparse')
     inverted_eid = eids[inv_k] if inv_k is not None else None
     blocks = {}
     for (typ, c), e in zip(conns, eids):
         blocks.setdefault(typ, []).append((e, [nid[i] for i in c]))
     for typ in blocks:
-        rng.shuffle(blocks[typ])
+        if id_mode in DENSE_MODES:
+            # element ids inside each type block: almost sorted as well
+            srt = sorted(blocks[typ])
+            by = {e: (e, c) for e, c in srt}
+            blocks[typ] = [by[e] for e in almost_sorted(rng, [e for e, _ in srt], id_mode)]
+        else:
+            rng.shuffle(blocks[typ])
     blocks = {typ: blocks[typ] for typ in TYPE_ORDER if typ in blocks}
     meta = {'kind': kind, 'dims': list(dims), 'affine': name, 'id_mode': id_mode, 'tet2': tet2,
-            'extra_nodes': extra_nodes, 'invert_one': invert_one, 'warp': warp, 'inverted_eid': inverted_eid,
+            'extra_nodes': extra_nodes, 'extra_pos': extra_pos, 'n_inverted': n_inverted,
+            'invert_one': invert_one, 'warp': warp, 'inverted_eid': inverted_eid,
             'n_elem': len(conns), 'n_node': n}
     return {'nodes': nodes, 'blocks': blocks, 'meta': meta}
